@@ -185,3 +185,10 @@ for _p in ('C02', 'C03', 'C04', 'C05', 'C06', 'C08', 'C09', 'C12', 'C16'):
 # a non-Exception raised in the submission thread while parts are in flight (found D20)
 for _p in ('C04', 'C08'):
     PROPS[_p]['oracles'] = list(PROPS[_p]['oracles']) + [_f('comp_explore', 'oracle_base_' + _p)]
+
+# the process-pool downloader under the download properties as well
+for _p in ('C02', 'C06'):
+    PROPS[_p]['corr'] = list(PROPS[_p]['corr']) + [_f('comp_procpool', 'corr_' + _p)]
+    PROPS[_p]['oracles'] = list(PROPS[_p]['oracles']) + [_f('comp_procpool', 'oracle_' + _p)]
+
+PROPS['C06']['oracles'] = list(PROPS['C06']['oracles']) + [_f('comp_download', 'legacy_overlap_oracle')]
